@@ -459,6 +459,16 @@ fn execute_history(run: &Run, opts: &ExecOpts) -> Outcome {
                             break 'ops;
                         }
                     }
+                    // C04 quantifies over where the project lives as well: every third checkpoint of a
+                    // C04 run builds the files once more under another checkout root (deep, with
+                    // multi-byte characters; the diagnostics quote absolute file names)
+                    if run.property == "C04" && (seeds[0] ^ i as u64) % 3 == 0 {
+                        cx.out.stats.fresh_builds += 2;
+                        let v = Variant { hash_seed: seeds[0], preregister: vec![], repeat: false, diag_first: *diag_first, root: Some(crate::gen::checkout_root((seeds[0] >> 7) / 5 * 5 + 3)), earlier: vec![], verbose: false };
+                        let fr = fresh_process(&fs_now, &entry, &run.project.settings, &v);
+                        cx.out.stats.probe("c04_build_under_another_checkout_root");
+                        check_c04(&mut cx, &fr.first, None, "fresh-relocated", i);
+                    }
                     let reach: BTreeSet<String> = fresh[0].resolved_to.iter().cloned().collect();
                     check_c04(&mut cx, &fresh[0].first, Some((&fs_now, &reach)), "fresh", i);
                     // locations are checked on the fresh build only: where the session agrees with it
